@@ -175,7 +175,17 @@ func genMP(t *rapid.T, reach bool, o WOpts, label string) markedAttr {
 		ma.len8 = append(ma.len8, 3)
 		v = append(v, byte(nhl))
 		v = append(v, genBytes(t, nhl, nhl, label+"_nh")...)
-		v = append(v, 0)
+		// the attribute may end at a field boundary: right after the next hop
+		// (no reserved octet) or after the reserved octet
+		switch rapid.IntRange(0, 11).Draw(t, label+"_end") {
+		case 7:
+			enc, pfx = nil, nil
+		case 8:
+			enc, pfx = nil, nil
+			v = append(v, 0)
+		default:
+			v = append(v, 0)
+		}
 	}
 	base := len(v)
 	v = append(v, enc...)
